@@ -20,13 +20,17 @@ use std::time::{Duration, Instant};
 const BASE_TOKEN: &str = "/@BASE@";
 /// a request is `<target>` or `<target>\u{1}<accept-encoding value>`
 const SEP: char = '\u{1}';
+/// `<METHOD>\u{2}<request>` for methods other than GET
+const MSEP: char = '\u{2}';
 fn split_req(req: &str) -> (&str, Option<&str>) {
 	match req.split_once(SEP) {
 		Some((t, a)) => (t, Some(a)),
 		None => (req, None),
 	}
 }
-const ACCEPTS: &[&str] = &["gzip", "br", "gzip, br", "identity"];
+const ACCEPTS: &[&str] = &["gzip", "br", "gzip, br", "identity", "GZIP", "br;q=0", "brotli", "x-gzip", "*", "gzip;q=0.5, br;q=1.0", "deflate"];
+/// the subset sent with *every* fixed / outside-file target (the rest is spread over them)
+const ACCEPTS_CORE: usize = 4;
 
 // ---------------------------------------------------------------- fixture
 
@@ -48,8 +52,12 @@ struct Source {
 	backend: Backend,
 }
 
+/// payload classes: id 0 = an empty file, ids 41 / 541 = 2 MiB (larger than any I/O buffer), else a few bytes
 fn body_for(name: &str, id: u64) -> Vec<u8> {
-	let plain = format!("ID{id}\n").into_bytes();
+	let mut plain = if id == 0 { Vec::new() } else { format!("ID{id}\n").into_bytes() };
+	if id == 41 || id == 541 {
+		plain.extend(std::iter::repeat(b'#').take(2 << 20));
+	}
 	if name.ends_with(".gz") {
 		let mut e = flate2::write::GzEncoder::new(Vec::new(), flate2::Compression::default());
 		e.write_all(&plain).unwrap();
@@ -68,9 +76,15 @@ fn body_for(name: &str, id: u64) -> Vec<u8> {
 
 fn parse_id(body: &[u8]) -> Option<u64> {
 	let try_plain = |b: &[u8]| -> Option<u64> {
-		let s = std::str::from_utf8(b).ok()?;
-		let s = s.strip_prefix("ID")?.strip_suffix('\n')?;
-		s.parse().ok()
+		if b.is_empty() {
+			return Some(0);
+		}
+		let nl = b.iter().position(|c| *c == b'\n')?;
+		if !b[nl + 1..].iter().all(|c| *c == b'#') {
+			return None;
+		}
+		let s = std::str::from_utf8(&b[..nl]).ok()?;
+		s.strip_prefix("ID")?.parse().ok()
 	};
 	if let Some(v) = try_plain(body) {
 		return Some(v);
@@ -114,6 +128,24 @@ fn write_tar(path: &Path, members: &[(String, u64)]) {
 		out.extend_from_slice(&data);
 		out.extend(std::iter::repeat(0u8).take((512 - data.len() % 512) % 512));
 	}
+	// entries that are not regular files (directory, symlink, hard link, fifo): must never be served
+	for (name, typ, link) in [("sub/", b'5', ""), ("evil", b'2', "/etc/passwd"), ("evil2", b'2', "../secret.txt"), ("hard", b'1', "a.txt"), ("fifo", b'6', "")] {
+		let mut h = [0u8; 512];
+		h[..name.len()].copy_from_slice(name.as_bytes());
+		h[100..108].copy_from_slice(b"0000644\0");
+		h[108..116].copy_from_slice(b"0000000\0");
+		h[116..124].copy_from_slice(b"0000000\0");
+		h[124..136].copy_from_slice(b"00000000000\0");
+		h[136..148].copy_from_slice(b"00000000000\0");
+		h[148..156].copy_from_slice(b"        ");
+		h[156] = typ;
+		h[157..157 + link.len()].copy_from_slice(link.as_bytes());
+		h[257..263].copy_from_slice(b"ustar\0");
+		h[263..265].copy_from_slice(b"00");
+		let sum: u32 = h.iter().map(|b| *b as u32).sum();
+		h[148..156].copy_from_slice(format!("{:06o}\0 ", sum).as_bytes());
+		out.extend_from_slice(&h);
+	}
 	out.extend(std::iter::repeat(0u8).take(1024));
 	std::fs::write(path, out).unwrap();
 }
@@ -134,6 +166,7 @@ fn default_entries() -> Vec<Entry> {
 		f("root/secret.txt", 15), d("root/sib"), f("root/sib/c.txt", 16),
 		d("root/root"), f("root/root/a.txt", 17), f("root/...", 18), f("root/..a", 19),
 		d("root/assets"), f("root/assets/q.txt", 20), f("root/..\\x.txt", 21),
+		f("root/empty.bin", 0), f("root/big.bin", 41), f("root/a.txt.", 22), f("root/a.txt%20", 23), f("root/%5c", 24), f("root/%252e%252e", 25),
 		// canaries: everything below is outside `root`
 		f("secret.txt", 1000), d("sib"), f("sib/c.txt", 1001), f("sib/index.html", 1002), f("index.html", 1003),
 		f("a.txt", 1004), d("rootx"), f("rootx/a.txt", 1005), f("root.br", 1006), f("root.gz", 1007),
@@ -152,7 +185,7 @@ fn default_members() -> Vec<(String, u64)> {
 		("index.html", 500), ("a.txt", 501), ("sub/index.html", 502), ("sub/x.txt.gz", 503), ("./dot/y.txt", 504),
 		("b.txt.br", 505), (".hid/z.txt", 506), ("c.txt.gz", 507), ("c.txt.br", 508), ("c.txt", 509),
 		("secret.txt", 510), ("nest/deep/index.html.br", 511), ("../up.txt", 512), ("d/../e.txt", 513),
-		("sub//dbl.txt", 514), ("%2e%2e/enc.txt", 515), ("a.txt", 516),
+		("sub//dbl.txt", 514), ("%2e%2e/enc.txt", 515), ("a.txt", 516), ("big.bin", 541), ("empty.bin", 0),
 	]
 	.iter()
 	.map(|(n, i)| (n.to_string(), *i))
@@ -251,7 +284,7 @@ impl Drop for Server {
 	}
 }
 
-fn start_server(base: &Path, sources: &[Source], idx: usize) -> Server {
+fn start_server(base: &Path, sources: &[Source], idx: usize, flags: &[String]) -> Server {
 	let bin = std::env::var("VTH_BIN").expect("VTH_BIN not set (path of the built versatiles binary)");
 	for attempt in 0..5 {
 		let port = {
@@ -264,13 +297,26 @@ fn start_server(base: &Path, sources: &[Source], idx: usize) -> Server {
 			let file = match &s.backend {
 				Backend::Folder(r) => r.clone(),
 				Backend::Tar(ms) => {
-					let name = format!("arch{idx}_{k}.tar");
-					write_tar(&base.join(&name), ms);
+					// `TarFile::from` unwraps .gz / .br name suffixes down to .tar: vary the wrapping by configuration
+					let ext = ["tar", "tar.gz", "tar.br", "tar.br.gz"][idx % 4];
+					let name = format!("arch{idx}_{k}.{ext}");
+					let plain = base.join(format!("arch{idx}_{k}.plain"));
+					write_tar(&plain, ms);
+					let mut data = std::fs::read(&plain).unwrap();
+					let _ = std::fs::remove_file(&plain);
+					for step in ext.split('.').skip(1) {
+						data = match step {
+							"gz" => { let mut e = flate2::write::GzEncoder::new(Vec::new(), flate2::Compression::fast()); e.write_all(&data).unwrap(); e.finish().unwrap() }
+							_ => { let mut o = Vec::new(); { let mut w = brotli::CompressorWriter::new(&mut o, 4096, 1, 20); w.write_all(&data).unwrap(); } o }
+						};
+					}
+					std::fs::write(base.join(&name), data).unwrap();
 					name
 				}
 			};
 			cmd.arg("-s").arg(if s.prefix.is_empty() { file } else { format!("[{}]{}", s.prefix, file) });
 		}
+		cmd.args(flags);
 		cmd.arg("zztiles").env("RUST_BACKTRACE", "0").stdin(Stdio::null()).stdout(Stdio::null()).stderr(Stdio::null());
 		let mut child = cmd.spawn().expect("cannot start the versatiles binary");
 		let addr: SocketAddr = format!("127.0.0.1:{port}").parse().unwrap();
@@ -327,10 +373,11 @@ impl Client {
 	fn exchange(&mut self, req: &str) -> Result<(u16, Vec<u8>), ()> {
 		use std::io::BufRead;
 		let r = self.conn.as_mut().ok_or(())?;
+		let (method, req) = req.split_once(MSEP).unwrap_or(("GET", req));
 		let (target, accept) = split_req(req);
 		let req = match accept {
-			None => format!("GET {target} HTTP/1.1\r\nHost: localhost\r\n\r\n"),
-			Some(a) => format!("GET {target} HTTP/1.1\r\nHost: localhost\r\nAccept-Encoding: {a}\r\n\r\n"),
+			None => format!("{method} {target} HTTP/1.1\r\nHost: localhost\r\n\r\n"),
+			Some(a) => format!("{method} {target} HTTP/1.1\r\nHost: localhost\r\nAccept-Encoding: {a}\r\n\r\n"),
 		};
 		r.get_mut().write_all(req.as_bytes()).map_err(|_| ())?;
 		let mut line = String::new();
@@ -365,7 +412,9 @@ impl Client {
 			}
 		}
 		let mut body = Vec::new();
-		if chunked {
+		if method == "HEAD" {
+			// no body follows a HEAD response
+		} else if chunked {
 			loop {
 				line.clear();
 				if r.read_line(&mut line).map_err(|_| ())? == 0 {
@@ -519,6 +568,11 @@ fn make_world(base: &Path, entries: &[Entry], sources: &[Source]) -> World {
 }
 
 fn uri_path(target: &str) -> &str {
+	// absolute-form request target: scheme://authority/path
+	let target = match target.strip_prefix("http://").or_else(|| target.strip_prefix("https://")) {
+		Some(rest) => rest.find('/').map_or("/", |i| &rest[i..]),
+		None => target,
+	};
 	let end = target.find(|c| c == '?' || c == '#').unwrap_or(target.len());
 	&target[..end]
 }
@@ -601,7 +655,7 @@ const SEG_ALL: &[&str] = &[
 	"a.txt", "b.txt", "c.txt", "sub", "deep", "x.txt", "y.txt", "nodex", "n.txt", "brdir", "weird", "index.html", "secret.txt", "sib", "root",
 	"root2", "rootx", "assets", "q.txt", "t", "x", "nope", ".hidden", "...", "..a", "a.txt.br", "b.txt.gz", "index.html.br", "r2.txt",
 	"..", ".", "", "..", "..", "%2e%2e", "%2E%2E", "%2e.", ".%2e", "%2f", "..%2f", "..%2fsecret.txt", "%2e%2e%2fsecret.txt", "..\\", "\\..", "..\\x.txt",
-	"..;", "..%00", "%c0%ae%c0%ae", "dot", "hid", "nest", "up.txt", "d", "e.txt", "dbl.txt", "enc.txt", "p.txt", "z.txt",
+	"..;", "..%00", "%c0%ae%c0%ae", "%5c", "%5C..", "..%5c", "%252e%252e", "%25%32%65%25%32%65", "a.txt.", "a.txt%20", "a.txt%00", "..%c0%af", ".%00.", "..%20", "%20..", "a.txt::$DATA", "index.html.", "INDEX.HTML", "A.TXT", "dot", "hid", "nest", "up.txt", "d", "e.txt", "dbl.txt", "enc.txt", "p.txt", "z.txt",
 ];
 
 fn seg_kind(s: &str) -> &'static str {
@@ -659,10 +713,17 @@ fn decorate(rng: &mut Rng, w_base: &Path, prefix: &str, segs: &[String]) -> Stri
 
 // ---------------------------------------------------------------- run
 
+#[derive(Default)]
 struct Group {
 	entries: Vec<Entry>,
 	sources: Vec<Source>,
 	targets: Vec<String>, // with BASE_TOKEN already replaced by the real base
+	/// extra command-line flags (`--fast`, `--disable-api`)
+	flags: Vec<String>,
+	/// oracle-only requests (no model line): `(kind, request)`; kind "head" compares HEAD with GET
+	probes: Vec<(&'static str, String)>,
+	/// a second phase on the SAME server after the file system was changed: new listing + targets
+	after: Option<(Vec<Entry>, Vec<String>)>,
 }
 
 fn with_accept(target: &str, accept: Option<&str>) -> String {
@@ -673,13 +734,153 @@ fn with_accept(target: &str, accept: Option<&str>) -> String {
 }
 
 fn run_group(out: &mut Out, base: &Path, idx: usize, g: &Group, shrink_budget: &mut usize) {
-	let server = start_server(base, &g.sources, idx);
-	let world = make_world(base, &g.entries, &g.sources);
-	let resps = ask_all(server.addr, &g.targets);
-	let ent = show_entries(&g.entries);
-	let src = show_sources(&g.sources);
-	let backend = if g.sources.len() > 1 { "multi" } else { match g.sources[0].backend { Backend::Folder(_) => "folder", Backend::Tar(_) => "tar" } };
-	for (req, r) in g.targets.iter().zip(resps.iter()) {
+	let server = start_server(base, &g.sources, idx, &g.flags);
+	check_targets(out, base, &server, &g.entries, &g.sources, &g.targets, shrink_budget);
+	run_probes(out, base, &server, &g.entries, &g.sources, &g.probes);
+	if let Some((entries2, targets2)) = &g.after {
+		// files created / removed / replaced while the server is running
+		change_fixture(base, &g.entries, entries2);
+		for (k, s) in g.sources.iter().enumerate() {
+			if let Backend::Tar(_) = s.backend {
+				// the archive is replaced on disk: the server keeps serving the snapshot read at start-up
+				for ext in ["tar", "tar.gz", "tar.br", "tar.br.gz"] {
+					let f = base.join(format!("arch{idx}_{k}.{ext}"));
+					if f.exists() {
+						write_tar(&f, &[("a.txt".to_string(), 2501), ("late.txt".to_string(), 2502), ("../late-secret.txt".to_string(), 2503)]);
+					}
+				}
+			}
+		}
+		out.count_n("requests_after_fs_change", targets2.len() as u64);
+		check_targets(out, base, &server, entries2, &g.sources, targets2, shrink_budget);
+		change_fixture(base, entries2, &g.entries);
+	}
+	drop(server);
+}
+
+fn entry_path(e: &Entry) -> &str {
+	match e { Entry::Dir(p) => p, Entry::File(p, _) => p }
+}
+
+/// turn the fixture `old` into `new` (remove what is gone or changed, create what is new)
+fn change_fixture(base: &Path, old: &[Entry], new: &[Entry]) {
+	let show = |e: &Entry| match e { Entry::Dir(p) => format!("d:{p}"), Entry::File(p, i) => format!("f:{p}:{i}") };
+	let newset: BTreeSet<String> = new.iter().map(show).collect();
+	let oldset: BTreeSet<String> = old.iter().map(show).collect();
+	for e in old.iter().rev() {
+		if !newset.contains(&show(e)) {
+			let p = base.join(entry_path(e));
+			let _ = if p.is_dir() { std::fs::remove_dir_all(&p) } else { std::fs::remove_file(&p) };
+		}
+	}
+	for e in new {
+		if !oldset.contains(&show(e)) {
+			match e {
+				Entry::Dir(p) => std::fs::create_dir_all(base.join(p)).unwrap(),
+				Entry::File(p, id) => {
+					let fp = base.join(p);
+					std::fs::create_dir_all(fp.parent().unwrap()).unwrap();
+					std::fs::write(&fp, body_for(p, *id)).unwrap();
+				}
+			}
+		}
+	}
+}
+
+/// oracle-only requests: other methods, targets the model does not cover (PATH_MAX, bytes hyper rejects,
+/// routed prefixes): a 200 must still carry a file inside a root; HEAD must agree with GET
+fn run_probes(out: &mut Out, base: &Path, server: &Server, entries: &[Entry], sources: &[Source], probes: &[(&'static str, String)]) {
+	if probes.is_empty() {
+		return;
+	}
+	let world = make_world(base, entries, sources);
+	let reqs: Vec<String> = probes.iter().map(|p| p.1.clone()).collect();
+	let resps = ask_all(server.addr, &reqs);
+	for ((kind, req), r) in probes.iter().zip(resps.iter()) {
+		let (method, rest) = req.split_once(MSEP).unwrap_or(("GET", req));
+		let (t, accept) = split_req(rest);
+		let key = format!("C07probe {kind} {method} {} {}", trunc(&hex(t.as_bytes()), 300), accept.unwrap_or("-"));
+		out.eval(&key, true);
+		out.count(&format!("probe_{kind}"));
+		let mut verdict: Option<(String, String)> = None;
+		if *kind == "head" {
+			let g = ask(server.addr, &with_accept(t, accept));
+			let same = std::mem::discriminant(&g) == std::mem::discriminant(r) || matches!((&g, r), (Resp::Closed, _) | (_, Resp::Closed));
+			if !same {
+				verdict = Some(("head-differs".into(), format!("HEAD answers {} but GET answers {}", r.show(), g.show())));
+			}
+		} else if *kind == "routed" || *kind == "raw" {
+			// routed (non-static) paths and targets whose path hyper derives in its own way (absolute-form,
+			// authority-form, rejected bytes): a 200 may carry anything but a fixture file from outside the roots
+			if let Resp::Ok(Some(i)) = r {
+				if !world.inside.contains(i) {
+					verdict = Some(("escape".into(), format!("200 with the content of file id {i}, which is outside every configured root")));
+				}
+			}
+		} else if let Some((k, m)) = judge(&world, t, r) {
+			verdict = Some((k.to_string(), m));
+		}
+		match verdict {
+			None => out.oracle(true, "", json!(null), json!(null)),
+			Some((k, m)) => out.oracle(
+				false,
+				&format!("C07 {k}: {method} {} → {}; {m}", trunc(t, 200), r.show()),
+				json!({"kind": k, "probe": kind, "method": method}),
+				json!({"target": trunc(t, 2000), "accept": accept, "impl": r.show(), "sources": show_sources(sources)}),
+			),
+		}
+	}
+}
+
+/// Symbolic links inside the root that point outside (oracle only – the model has no links):
+/// directory link, file link, link to a precompressed file, a harmless link that stays inside.
+fn symlink_group(out: &mut Out, base: &Path, entries: &[Entry], idx: usize) {
+	use std::os::unix::fs::symlink;
+	let root = base.join("rootl");
+	std::fs::create_dir_all(root.join("d")).unwrap();
+	std::fs::write(root.join("a.txt"), body_for("a.txt", 50)).unwrap();
+	std::fs::write(root.join("d/index.html"), body_for("index.html", 51)).unwrap();
+	let _ = symlink("../sib", root.join("link"));
+	let _ = symlink("../secret.txt", root.join("flink"));
+	let _ = symlink("../backup.tar.gz", root.join("arch.tar.gz"));
+	let _ = symlink("a.txt", root.join("inlink"));
+	let _ = symlink("..", root.join("up"));
+	let _ = symlink(base.join("sib"), root.join("abslink"));
+	let mut ents = entries.to_vec();
+	ents.extend([Entry::Dir("rootl".into()), Entry::File("rootl/a.txt".into(), 50), Entry::Dir("rootl/d".into()), Entry::File("rootl/d/index.html".into(), 51)]);
+	let sources = vec![Source { prefix: String::new(), backend: Backend::Folder("rootl".into()) }];
+	let server = start_server(base, &sources, idx, &[]);
+	let world = make_world(base, &ents, &sources);
+	let mut reqs: Vec<String> = vec![];
+	for t in ["/a.txt", "/inlink", "/d", "/link/c.txt", "/link", "/link/", "/link/index.html", "/flink", "/arch.tar", "/arch.tar.gz", "/up/secret.txt", "/up/sib/c.txt", "/up/rootl/a.txt", "/abslink/c.txt", "/abslink/", "/link/only.js", "/link/page.html"] {
+		reqs.push(t.to_string());
+		reqs.push(with_accept(t, Some("gzip, br")));
+	}
+	let resps = ask_all(server.addr, &reqs);
+	for (req, r) in reqs.iter().zip(resps.iter()) {
+		let (t, accept) = split_req(req);
+		out.eval(&format!("C07symlink {t} {}", accept.unwrap_or("-")), true);
+		out.count("probe_symlink");
+		match judge(&world, t, r) {
+			None => out.oracle(true, "", json!(null), json!(null)),
+			Some((_, m)) => out.oracle(
+				false,
+				&format!("C07 symlink: GET {t} → {}; {m}", r.show()),
+				json!({"kind": "symlink-followed", "backend": "folder"}),
+				json!({"target": t, "accept": accept, "impl": r.show(), "fixture": "rootl/{link -> ../sib, flink -> ../secret.txt, arch.tar.gz -> ../backup.tar.gz, up -> .., abslink -> <base>/sib}"}),
+			),
+		}
+	}
+	drop(server);
+}
+
+fn check_targets(out: &mut Out, base: &Path, server: &Server, entries: &[Entry], sources: &[Source], targets: &[String], shrink_budget: &mut usize) {
+	let world = make_world(base, entries, sources);
+	let resps = ask_all(server.addr, targets);
+	let ent = show_entries(entries);
+	let src = show_sources(sources);
+	let backend = if sources.len() > 1 { "multi" } else { match sources[0].backend { Backend::Folder(_) => "folder", Backend::Tar(_) => "tar" } };
+	for (req, r) in targets.iter().zip(resps.iter()) {
 		let (t, accept) = split_req(req);
 		let acc_field = |a: Option<&str>| a.map_or(String::new(), |a| format!(" {}", hex(a.as_bytes())));
 		let t = &t.to_string();
@@ -730,13 +931,12 @@ fn run_group(out: &mut Out, base: &Path, idx: usize, g: &Group, shrink_budget: &
 			}
 		}
 	}
-	drop(server);
 }
 
 pub fn run(args: &Args) {
 	quiet_panics();
 	let mut out = Out::new(&args.out);
-	out.rule = "raw HTTP/1.1 GET requests (target bytes sent verbatim) against `versatiles serve` with folder / tar static sources, with and without URL prefix, and a multi-source configuration; fixture with canary files outside the roots; targets: all sequences of depth ≤3 (thorough ≤4) over a small segment alphabet (names, '.', '..', empty, %2e%2e, …) plus seeded random sequences of depth ≤6 over a large alphabet, plus absolute-path targets (//, /// after the URL prefix) at every sibling whose path string extends a root's path string (rootx/…, root.br, root-private/…), plus every file outside a root (canaries, precompressed-only .br/.gz siblings) via '..' and absolute forms with and without its extension; requests carry no Accept-Encoding or one of gzip / br / 'gzip, br' / identity (all five for the fixed list and the outside-file targets, one seeded variant for the bulk); plus guided walks (existing files, directories and archive members perturbed by '.', empty, 'x/..', '..', partially encoded segments, dropped .br/.gz extensions) with extra leading slashes, absolute-path injections, trailing slash, ?query/#fragment; non-trivial = the path contains a '..', '.', empty, percent-encoded or backslash segment or an absolute form; distinct by case text".into();
+	out.rule = "raw HTTP/1.1 GET requests (target bytes sent verbatim) against `versatiles serve` with folder / tar static sources, with and without URL prefix, and a multi-source configuration; fixture with canary files outside the roots; targets: all sequences of depth ≤3 (thorough ≤4) over a small segment alphabet (names, '.', '..', empty, %2e%2e, …) plus seeded random sequences of depth ≤6 over a large alphabet, plus absolute-path targets (//, /// after the URL prefix) at every sibling whose path string extends a root's path string (rootx/…, root.br, root-private/…), plus every file outside a root (canaries, precompressed-only .br/.gz siblings) via '..' and absolute forms with and without its extension; requests carry no Accept-Encoding or one of gzip / br / 'gzip, br' / identity (all five for the fixed list and the outside-file targets, one seeded variant for the bulk); plus oracle-only probes (HEAD vs GET on the fixed list, POST/PUT/DELETE/OPTIONS/PATCH, targets of 5-40 kB, bytes hyper rejects, absolute-form and authority-form targets, the routed prefixes /status and /tiles/…), a second phase on the same server after files were created / removed / replaced (tar archives rewritten on disk), tar archives wrapped as .tar / .tar.gz / .tar.br / .tar.br.gz, non-regular tar entries, overlapping and repeated URL prefixes in both source orders, --fast --disable-api, empty and 2 MiB files, a symlink fixture; plus guided walks (existing files, directories and archive members perturbed by '.', empty, 'x/..', '..', partially encoded segments, dropped .br/.gz extensions) with extra leading slashes, absolute-path injections, trailing slash, ?query/#fragment; non-trivial = the path contains a '..', '.', empty, percent-encoded or backslash segment or an absolute form; distinct by case text".into();
 	std::fs::create_dir_all(&args.out).unwrap();
 	let base = std::fs::canonicalize(&args.out).unwrap().join("w");
 	let base_s = base.display().to_string();
@@ -757,7 +957,7 @@ pub fn run(args: &Args) {
 			let key = format!("{} {}", t[2], t[3]);
 			match groups.iter_mut().find(|g| g.0 == key) {
 				Some(g) => g.1.targets.push(target),
-				None => groups.push((key, Group { entries: parse_entries(t[2]), sources: parse_sources(t[3]), targets: vec![target] })),
+				None => groups.push((key, Group { entries: parse_entries(t[2]), sources: parse_sources(t[3]), targets: vec![target], ..Default::default() })),
 			}
 		}
 		for (i, (_, g)) in groups.iter().enumerate() {
@@ -782,6 +982,15 @@ pub fn run(args: &Args) {
 		vec![tar("/t")],
 		vec![folder("/assets/x", "root2"), tar("/t"), folder("", "root")],
 	];
+	let n_full = configs.len();
+	// option interplay: overlapping URL prefixes, the same prefix in both orders (tar before folder and
+	// folder before tar), prefix given without slash / with trailing slash; these run a lighter target set
+	configs.push(vec![folder("/assets", "root2"), folder("/assets/x", "root")]);
+	configs.push(vec![tar(""), folder("", "root")]);
+	configs.push(vec![folder("", "root"), tar("")]);
+	configs.push(vec![folder("assets/", "root"), tar("assets")]);
+	configs.push(vec![folder("", "root")]); // with --fast --disable-api (see flags below)
+	let flags_cfg = configs.len() - 1;
 	if args.thorough() {
 		configs.push(vec![folder("pre/fix/", "root")]);
 		configs.push(vec![tar("assets"), folder("assets", "root2")]);
@@ -806,12 +1015,16 @@ pub fn run(args: &Args) {
 	];
 
 	let small = exhaustive(if args.thorough() { SEG_MED } else { SEG_SMALL }, if args.thorough() { 4 } else { 3 });
-	let n_random = args.n(1500, 12000);
+	let n_random_full = args.n(1500, 12000);
+	let small2: Vec<Vec<String>> = small.iter().filter(|s| s.len() <= 2).cloned().collect();
 	for (ci, sources) in configs.iter().enumerate() {
+		let light = ci >= n_full && !args.thorough();
+		let small = if light { &small2 } else { &small };
+		let n_random = if light { n_random_full / 4 } else { n_random_full };
 		let prefixes: Vec<String> = sources.iter().map(|s| s.prefix.clone()).collect();
 		let mut targets: Vec<String> = fixed.iter().map(|t| t.replace(BASE_TOKEN, &base_s)).collect();
 		// exhaustive short sequences (under the first source's prefix, and for prefixed sources also bare)
-		for segs in &small {
+		for segs in small.iter() {
 			let p0 = if prefixes[0].is_empty() { String::new() } else { norm_prefix(&prefixes[0]).trim_end_matches('/').to_string() };
 			targets.push(format!("{}/{}", p0, segs.join("/")));
 		}
@@ -943,21 +1156,82 @@ pub fn run(args: &Args) {
 				reqs.push(t.clone());
 				reqs.extend(ACCEPTS.iter().map(|a| with_accept(t, Some(a))));
 			} else {
-				match rng.below(6) {
-					0 | 1 => reqs.push(t.clone()),
-					k => reqs.push(with_accept(t, Some(ACCEPTS[(k - 2) as usize]))),
+				match rng.below(3) {
+					0 => reqs.push(t.clone()),
+					_ => { let a: &str = ACCEPTS[rng.below(ACCEPTS.len() as u64) as usize]; reqs.push(with_accept(t, Some(a))) }
 				}
 			}
 		}
-		for t in &critical {
+		for (i, t) in critical.iter().enumerate() {
 			reqs.push(t.clone());
-			reqs.extend(ACCEPTS.iter().map(|a| with_accept(t, Some(a))));
+			reqs.extend(ACCEPTS[..ACCEPTS_CORE].iter().map(|a| with_accept(t, Some(a))));
+			reqs.push(with_accept(t, Some(ACCEPTS[ACCEPTS_CORE + i % (ACCEPTS.len() - ACCEPTS_CORE)])));
 		}
 		let targets = reqs;
-		let g = Group { entries: entries.clone(), sources: sources.clone(), targets };
+		// ---- oracle-only probes
+		let mut probes: Vec<(&'static str, String)> = vec![];
+		let fixed_t: Vec<String> = fixed.iter().map(|t| t.replace(BASE_TOKEN, &base_s)).collect();
+		for t in fixed_t.iter().chain(critical.iter().step_by(7)) {
+			probes.push(("head", format!("HEAD{MSEP}{t}")));
+			probes.push(("head", format!("HEAD{MSEP}{}", with_accept(t, Some("gzip, br")))));
+		}
+		for t in fixed_t.iter().step_by(3) {
+			for m in ["POST", "PUT", "DELETE", "OPTIONS", "PATCH"] {
+				probes.push(("method", format!("{m}{MSEP}{t}")));
+			}
+		}
+		let p0 = if prefixes[0].is_empty() { String::new() } else { norm_prefix(&prefixes[0]).trim_end_matches('/').to_string() };
+		// very long targets (PATH_MAX / NAME_MAX are outside the model)
+		for t in [
+			format!("{p0}/{}a.txt", "./".repeat(3000)),
+			format!("{p0}/{}a.txt", "sub/../".repeat(900)),
+			format!("{p0}/{}secret.txt", "../".repeat(2500)),
+			format!("{p0}/{}", "x".repeat(300)),
+			format!("{p0}/{}", "x".repeat(20000)),
+			format!("{p0}/{}a.txt", "/".repeat(5000)),
+			format!("{p0}///{}/{}secret.txt", &base_s[1..], "./".repeat(2500)),
+			format!("{p0}/a.txt?{}", "q".repeat(30000)),
+			format!("{p0}/{}/../../../../secret.txt", "sub/deep/../..".repeat(400)),
+		] {
+			probes.push(("long", t.clone()));
+			probes.push(("long", with_accept(&t, Some("br"))));
+		}
+		// bytes hyper refuses or that end the request line, sent verbatim
+		for t in ["/a b", "/a.txt\u{0}", "/..\u{0}/secret.txt", "/../secret.txt\u{0}.txt", "/\u{7f}", "/%", "/%zz/../secret.txt", "/a.txt\t", "/<>", "/`", "/../secret.txt HTTP/1.1\r\nX: y", "/\u{e4}/../secret.txt", "*", "http://localhost/../secret.txt", "http://x/a.txt", "//localhost/../secret.txt", "localhost:1"] {
+			probes.push(("raw", format!("{p0}{t}")));
+			probes.push(("raw", t.to_string()));
+		}
+		// routed prefixes: these paths belong to other handlers, but must not leak files either
+		for t in ["/status", "/status/", "/status/../secret.txt", "/tiles/index.json", "/tiles/index.json/../../secret.txt", "/tiles/zztiles/../../secret.txt", "/tiles/zztiles/0/0/0", "/tiles/zztiles/..%2f..%2fsecret.txt", "/tiles/../secret.txt", "/tiles//../secret.txt", "/tiles/zztiles/tiles.json", "/tiles/zztiles//../../a.txt"] {
+			probes.push(("routed", t.to_string()));
+			probes.push(("routed", with_accept(t, Some("gzip"))));
+		}
+		// ---- files created / removed / replaced after start-up (first folder and first tar configuration)
+		let after = if ci == 0 || ci == 2 {
+			let mut e2: Vec<Entry> = entries.iter().filter(|e| !matches!(entry_path(e), "root/b.txt.gz" | "root/sub/x.txt" | "root/nodex" | "root/nodex/n.txt" | "root/a.txt")).cloned().collect();
+			e2.extend([
+				Entry::File("root/late.txt".into(), 40), Entry::Dir("root/latedir".into()), Entry::File("root/latedir/index.html".into(), 42),
+				Entry::File("late-secret.txt".into(), 1030), Entry::File("late-secret2.txt.gz".into(), 1031), Entry::Dir("root/sub/x.txt".into()),
+				Entry::File("root/a.txt".into(), 43), Entry::File("rootx/late.txt".into(), 1032),
+			]);
+			let mut t2: Vec<String> = fixed_t.clone();
+			for t in ["/late.txt", "/latedir", "/latedir/", "/b.txt", "/sub/x.txt", "/sub/x.txt/", "/nodex/n.txt", "/nodex", "/../late-secret.txt", "/../late-secret2.txt", "/a.txt"] {
+				t2.push(format!("{p0}{t}"));
+				t2.push(with_accept(&format!("{p0}{t}"), Some("gzip")));
+			}
+			t2.push(format!("{p0}///{}/late-secret.txt", &base_s[1..]));
+			t2.push(format!("{p0}///{}/rootx/late.txt", &base_s[1..]));
+			Some((e2, t2))
+		} else {
+			None
+		};
+		let flags: Vec<String> = if ci == flags_cfg { vec!["--fast".into(), "--disable-api".into()] } else { vec![] };
+		let g = Group { entries: entries.clone(), sources: sources.clone(), targets, flags, probes, after };
 		run_group(&mut out, &base, ci, &g, &mut shrink_budget);
 	}
+	symlink_group(&mut out, &base, &entries, configs.len());
 	out.exhaustive = true;
+	out.notes.push("class notes: no numeric thresholds in the anchored files (class 1 n.a.); PATH_MAX / bytes hyper rejects / other methods / routed prefixes are probed by the oracle only (no model line); symbolic links are outside the model, the symlink fixture is judged by the oracle only".into());
 	out.notes.push(format!(
 		"exhaustive part: all segment sequences of depth ≤{} over {:?} for each of {} server configurations; canaries: {} files outside the roots",
 		if args.thorough() { 4 } else { 3 },
